@@ -39,7 +39,8 @@ def program_case(draw, tier="quick"):
             a = draw(st.sampled_from(ACTIONS[:-1]))
         steps.append({"peer": draw(st.integers(0, 1)), "action": a, "defect": draw(st.sampled_from(DEFECTS)),
                       "mismatch": draw(st.sampled_from(["drop-section", "rename-mid", "extra-section"]))})
-    return {"steps": steps, "media": draw(st.sampled_from(["audio+dc", "video+dc", "audio", "dc"]))}
+    return {"steps": steps, "media": draw(st.sampled_from(["audio+dc", "video+dc", "audio", "dc"])),
+            "yield_send": draw(st.sampled_from([False, False, False, True]))}
 
 
 def make_defective(text: str, defect: str) -> str:
@@ -289,11 +290,13 @@ Peer.remote_offer_seq = None
 def run_program(case: dict) -> Outcome:
     r = Run(case)
     try:
-        run_pc_sim(r.main, max_iterations=2_000_000)
+        run_pc_sim(r.main, max_iterations=2_000_000, yield_send=bool(case.get("yield_send")))
     except vloop.SimAbort as exc:
         return Outcome(f"simulation aborted: {exc!r}", "sim-abort:" + type(exc).__name__, True, tuple(sorted(r.classes)))
     nt = r.illegal_after_legal > 0
     r.classes.add(f"legal={min(r.legal, 6)}")
+    if case.get("yield_send"):
+        r.classes.add("yielding-send")
     cl = tuple(sorted(r.classes))
     if r.problem:
         return Outcome(r.problem[1], r.problem[0], nt, cl)
